@@ -214,12 +214,10 @@ theorem step_sig (cfg : Cfg) (s : St) (e : Ev) : sigObs (step cfg s e).2 = expec
           rw [hm]
           rfl
       · split
+        · rfl
         · split
           · rfl
-          · split
-            · rfl
-            · exact sig_bg (BG_andThen (drainDone_bg _ _ _) (fun _ => stopLoop_bg _ _ _ _))
-        · rfl
+          · exact sig_bg (BG_andThen (drainDone_bg _ _ _) (fun _ => stopLoop_bg _ _ _ _))
     · simp [sigObs, bg]
   | consumerErr cid e =>
     simp only [step, expectedSig]
